@@ -1606,7 +1606,11 @@ class Stage:
             time.append(stage._method.integrator_grid[k])
         if include_last:
             sub_expr.append(stage._method.eval_at_control(stage, expr, -1))
-        return vcat(time), hcat(sub_expr)
+        time = vcat(time)
+        if not include_last:
+            # 'integrator-': one time point per sampled value
+            time = time[:-1]
+        return time, hcat(sub_expr)
 
 
     def _grid_integrator_roots(self, stage, expr, grid, include_first=True, include_last=True):
